@@ -211,15 +211,26 @@ def _grid(case, ctx, obj, model, desc, pts, scale, feats):
         combos = [tuple(c) for c in case['sample_sizes']]
     clamped = all(R.multiplicity(U, U[0]) >= p + 1 and R.multiplicity(U, U[-1]) >= p + 1
                   for U, p in zip(model['kvs'], model['degrees']))
-    for ns in combos:
+    # per-direction re-sampling: after a grid with sizes `a` was read, only the directions that differ are set
+    steps = [(None, ns) for ns in combos]
+    if pd >= 2 and not case.get('sample_sizes'):
+        for a, b in ([((3, 4), (3, 3)), ((4, 3), (3, 3)), ((3, 4), (4, 4))] if pd == 2 else
+                     [((2, 3, 4), (2, 3, 2)), ((3, 2, 2), (3, 3, 2)), ((2, 3, 4), (4, 3, 4))]):
+            steps.append((None, a))
+            steps.append((a, b))
+    elif case.get('resample'):
+        steps = [(None, tuple(case['resample'][0])), (tuple(case['resample'][0]), tuple(case['resample'][1]))]
+    for prev, ns in steps:
         rc = dict(case, sample_sizes=[list(ns)], params=[[0.0]] * pd)
+        if prev is not None:
+            rc = dict(case, resample=[list(prev), list(ns)], params=[[0.0]] * pd)
         f = dict(feats, sample=list(ns))
         if pd == 1:
             obj.sample_size = ns[0]
-        elif pd == 2:
-            obj.sample_size_u, obj.sample_size_v = ns
         else:
-            obj.sample_size_u, obj.sample_size_v, obj.sample_size_w = ns
+            for a, nm in enumerate('uvw'[:pd]):
+                if prev is None or prev[a] != ns[a]:
+                    setattr(obj, 'sample_size_' + nm, ns[a])
         ep = obj.evalpts
         total = 1
         for n in ns:
